@@ -28,6 +28,7 @@ def cases(tier):
             for nt in range(2):
                 cs.append(dict(name=f"mtl_agg{agg}_{tf}{nt}", fn="mtl", args=dict(tier=tier), prefix=[agg, tf, nt], weight=3))
         cs.append(dict(name=f"single_row_agg{agg}", fn="single", args=dict(tier=tier), prefix=[agg], weight=1))
+        cs.append(dict(name=f"three_outputs_agg{agg}", fn="three", args=dict(tier=tier), prefix=[agg], weight=1))
     return cs
 
 
@@ -76,6 +77,21 @@ def case_single(sp, tier):
     spec = dict(leaves=[("a", sa, True), ("b", (2,), True)], ops=[dict(name="f", inputs=["a", "b"], outs=[("y", sy)], deps={(0, 0), (0, 1)})])
     ranks = {"a": 0, "b": 1, "y": 10}
     return _compare(sp, spec, ranks, ["y"], ["a", "b"], ai, chunk_by_choice=True, f64=choice(2, "float64_program") == 1)
+
+
+def case_three(sp, tier):
+    """three outputs of mixed rank in every listing order (scalar, vector, scalar ...): row i of the Jacobian must belong to entry i of the flattened list"""
+    set_kernels()
+    ai = choice(3, "aggregator_kind")
+    shapes = [[(), (2,), ()], [(2,), (), ()], [(), (), (2,)], [(), (1,), ()], [(1, 2), (), (2,)]][choice(5, "output_shapes")]
+    spec = dict(leaves=[("a", (2,), True), ("b", (), True)],
+                ops=[dict(name="f1", inputs=["a", "b"], outs=[("y1", shapes[0])], deps={(0, 0), (0, 1)}),
+                     dict(name="f2", inputs=["a"], outs=[("y2", shapes[1])], deps={(0, 0)}),
+                     dict(name="f3", inputs=["a", "b"], outs=[("y3", shapes[2])], deps={(0, 0), (0, 1)})])
+    order = perms(3)[choice(6, "listing_order")]
+    outs = [["y1", "y2", "y3"][i] for i in order]
+    ranks = {"a": 0, "b": 1, "y1": 10, "y2": 11, "y3": 12}
+    return _compare(sp, spec, ranks, outs, ["a", "b"], ai, chunk_by_choice=False)
 
 
 def case_graph(sp, tier):
